@@ -73,11 +73,21 @@ def _run_one(exe, line):
         return "CRASH rc=%d" % q.returncode
     return o
 
-def _run_chunk(exe, lines):
+DEADLINE = None          # set by check.py: wall-clock time after which no further case is started
+MAX_STALLS = 3           # per chunk: after that many dead / stalled processes the rest is not run
+
+def _run_chunk(exe, lines, stalls=None):
     """one process for the whole chunk; if it dies or exceeds the hang guard, find the culprit case(s):
-    a dead process is reported as CRASH, a case that does not answer within LINE_TIMEOUT as HANG"""
+    a dead process is reported as CRASH, a case that does not answer within LINE_TIMEOUT as HANG.
+    A change that makes MANY cases slow must not make the check itself run for hours: after MAX_STALLS
+    stalls in one chunk (or past the check's deadline) the remaining cases are reported as SKIPPED,
+    which no oracle accepts and which differs from every model answer."""
     if not lines:
         return []
+    if stalls is None:
+        stalls = [0]
+    if stalls[0] >= MAX_STALLS or (DEADLINE is not None and time.time() > DEADLINE):
+        return ["SKIPPED"] * len(lines)
     try:
         p = subprocess.run([exe], input="\n".join(lines) + "\n", stdout=subprocess.PIPE,
                            stderr=subprocess.PIPE, text=True, timeout=CHUNK_TIMEOUT)
@@ -96,8 +106,9 @@ def _run_chunk(exe, lines):
     res = list(out)
     i = len(out)
     # the case at position i killed or stalled the process: run it alone, then the rest as a new chunk
+    stalls[0] += 1
     res.append(_run_one(exe, lines[i]))
-    return res + _run_chunk(exe, lines[i + 1:])
+    return res + _run_chunk(exe, lines[i + 1:], stalls)
 
 def run_exe(exe, lines, shards=NPROC):
     lines = list(lines)
@@ -623,3 +634,53 @@ def structured_pairs(base=None, stride=1):
         if k not in seen:
             seen.add(k); res.append((a, b))
     return res
+
+
+# ------------------------------------------------------------------ input / result distribution
+TEXT_OPS = ("from_str", "tokens", "parse", "depth_walk", "depth_all", "from_value_text", "serde_ok", "ref_json")
+
+def case_class(line):
+    """coarse class of a case line: op + top constructor (and flag) of each shape / document argument"""
+    a = line.split("\t")
+    op = a[0]
+    if op in ("counts", "allocs") and len(a) > 1:
+        op, a = op + ":" + a[1], a[1:]
+    if op in TEXT_OPS or op.endswith("_text"):
+        return op + "(text x%d)" % (len(a) - 1)
+    def c(x):
+        if not x:
+            return "-"
+        ch = x[0]
+        if ch in "NB#SATUO":
+            return ch + (x[1] if len(x) > 1 and x[1] in "01" else "")
+        if ch in "nt1s[{":
+            return {"n": "null", "t": "bool", "1": "num", "s": "str", "[": "arr", "{": "obj"}[ch]
+        return "?"
+    return op + "(" + ",".join(c(x) for x in a[1:4]) + (",+%d" % (len(a) - 4) if len(a) > 4 else "") + ")"
+
+def result_class(r):
+    if r is None:
+        return "none"
+    t = r.split(" ")
+    if t[0] in ("ERR", "BOOL"):
+        return " ".join(t[:2])
+    if t[0] == "OK" and len(t) > 1 and t[1][:1] in "NB#SATUO":
+        return "OK " + t[1][0]
+    return t[0][:12]
+
+def account(dist, scope, lines, results):
+    d = dist.setdefault(scope, {"in": {}, "out": {}})
+    for l, r in zip(lines, results):
+        k = case_class(l)
+        d["in"][k] = d["in"].get(k, 0) + 1
+        k = result_class(r)
+        d["out"][k] = d["out"].get(k, 0) + 1
+
+def dist_summary(dist, top=30):
+    out = {}
+    for scope, d in dist.items():
+        ins = sorted(d["in"].items(), key=lambda kv: -kv[1])
+        out[scope] = {"input_classes": len(ins), "largest_input_classes": dict(ins[:top]),
+                      "smallest_input_classes": dict(ins[-5:]) if len(ins) > top else {},
+                      "result_classes": dict(sorted(d["out"].items(), key=lambda kv: -kv[1])[:20])}
+    return out
